@@ -786,7 +786,17 @@ class Interp:
             # symbolic comprehension
             it_t = to_term(it)
             self.assign(gen.target, self.pm.iter_element(it, it_t), e, symbolic_elem=True)
-            conds = [self.truth(self.eval(c)) for c in gen.ifs]
+
+            def merged_cond(expr):
+                """a filter that calls functions is evaluated per element: the callee's branches are merged into one boolean term"""
+                if not any(isinstance(x, ast.Call) for x in ast.walk(expr)):
+                    return self.eval(expr)
+                lam = ast.Lambda(args=ast.arguments(posonlyargs=[], args=[], kwonlyargs=[], kw_defaults=[], defaults=[]), body=expr)
+                ast.copy_location(lam, expr)
+                ast.fix_missing_locations(lam)
+                ref = self.eval(lam)
+                return self.call_merged(ref, [], {}, e) if isinstance(ref, FuncRef) else self.eval(expr)
+            conds = [self.truth(merged_cond(c)) for c in gen.ifs]
             for g in e.generators[1:]:
                 it2 = self.eval(g.iter)
                 self.assign(g.target, self.pm.iter_element(it2, to_term(it2)), e, symbolic_elem=True)
